@@ -126,3 +126,1461 @@ Proof.
   intros (L1 & L2 & L3 & L4) H. unfold live, len in *. cbn [buf size pos].
   rewrite abit_buf_length. repeat split; try lia. now apply abit_buf_ok.
 Qed.
+
+(* ------------------------------------------------------------------ *)
+(** * memcpy and the unaligned append loop *)
+
+Lemma memcpy_loop_spec src soff doff : 0 <= soff -> 0 <= doff -> forall k dst i,
+  0 <= i -> soff + i + Z.of_nat k <= len src -> doff + i + Z.of_nat k <= len dst ->
+  exists d, memcpy_loop k dst doff src soff i = COk d /\ length d = length dst /\
+    (bytes_ok src -> bytes_ok dst -> bytes_ok d) /\
+    forall j, 0 <= j ->
+      nthz d j = if (doff + i <=? j) && (j <? doff + i + Z.of_nat k)
+                 then nthz src (soff + (j - doff)) else nthz dst j.
+Proof.
+  intros Hs Hd. induction k as [|k IH]; intros dst i Hi Hsrc Hdst.
+  - exists dst. cbn [memcpy_loop]. repeat split; auto.
+    intros j Hj. destruct ((doff + i <=? j) && (j <? doff + i + Z.of_nat 0)) eqn:E; [lia|reflexivity].
+  - cbn [memcpy_loop]. rewrite rd_ok by lia. cbn [cbind]. rewrite wr_ok by lia. cbn [cbind].
+    destruct (IH (upd dst (Z.to_nat (doff + i)) (nthz src (soff + i))) (i + 1)) as (d & E & L & B & N);
+      try rewrite upd_len; try lia.
+    exists d. split; [exact E|]. split; [now rewrite L, upd_length|]. split.
+    + intros B1 B2. apply B; auto. apply upd_bytes_ok; auto. now apply nthz_is_byte.
+    + intros j Hj. rewrite N by lia. rewrite nthz_upd by lia.
+      destruct ((doff + (i + 1) <=? j) && (j <? doff + (i + 1) + Z.of_nat k)) eqn:E1;
+      destruct ((doff + i <=? j) && (j <? doff + i + Z.of_nat (S k))) eqn:E2;
+      destruct (j =? doff + i) eqn:E3; try lia; try reflexivity.
+      f_equal. lia.
+Qed.
+
+Lemma memcpy_spec dst doff src soff n :
+  0 <= soff -> 0 <= doff -> 0 <= n -> soff + n <= len src -> doff + n <= len dst ->
+  exists d, memcpy dst doff src soff n = COk d /\ length d = length dst /\
+    (bytes_ok src -> bytes_ok dst -> bytes_ok d) /\
+    forall j, 0 <= j ->
+      nthz d j = if (doff <=? j) && (j <? doff + n) then nthz src (soff + (j - doff)) else nthz dst j.
+Proof.
+  intros Hs Hd Hn H1 H2. unfold memcpy.
+  destruct (memcpy_loop_spec src soff doff Hs Hd (Z.to_nat n) dst 0) as (d & E & L & B & N); try lia.
+  exists d. repeat split; auto. intros j Hj. rewrite N by lia.
+  replace (doff + 0) with doff by lia. now rewrite Z2Nat.id by lia.
+Qed.
+
+(** one iteration of the unaligned loop, byte view *)
+Definition abytes_step (b : list Z) (bp pib x i : Z) : list Z :=
+  upd (upd b (Z.to_nat (bp + i)) (u8 (Z.lor (nthz b (bp + i)) (Z.shiftr x pib))))
+      (Z.to_nat (bp + i + 1)) (u8 (Z.shiftl x (8 - pib))).
+
+Lemma abytes_step_bits b bp pib x i : 0 <= bp -> 0 <= i -> 0 < pib < 8 -> is_byte x ->
+  bp + i + 1 < len b ->
+  (forall q, 8 * (bp + i) + pib <= q < 8 * (bp + i + 1) -> getbit b q = false) ->
+  (forall q, 0 <= q < 8 * (bp + i) + pib -> getbit (abytes_step b bp pib x i) q = getbit b q) /\
+  (forall t, 0 <= t < 8 -> getbit (abytes_step b bp pib x i) (8 * (bp + i) + pib + t) = Z.testbit x (7 - t)) /\
+  (forall q, 8 * (bp + i + 1) + pib <= q < 8 * (bp + i + 2) -> getbit (abytes_step b bp pib x i) q = false).
+Proof.
+  intros Hbp Hi Hp Hx Hlen Hclean.
+  assert (N : forall j, 0 <= j -> nthz (abytes_step b bp pib x i) j =
+            if j =? bp + i + 1 then u8 (Z.shiftl x (8 - pib))
+            else if j =? bp + i then u8 (Z.lor (nthz b (bp + i)) (Z.shiftr x pib)) else nthz b j).
+  { intros j Hj. unfold abytes_step. rewrite nthz_upd by (rewrite ?upd_len; lia).
+    destruct (j =? bp + i + 1); [reflexivity|]. now rewrite nthz_upd by lia. }
+  split; [|split].
+  - intros q Hq. destruct (Z.eq_dec (q / 8) (bp + i)) as [E|E].
+    + rewrite (getbit_at _ q _ (N (q / 8) ltac:(lia))).
+      destruct (q / 8 =? bp + i + 1) eqn:E1; [lia|]. destruct (q / 8 =? bp + i) eqn:E2; [|lia].
+      replace (7 - q mod 8) with (7 - (q mod 8)) by lia.
+      rewrite abytes_byte1_bits by (auto; lia).
+      destruct (pib <=? q mod 8) eqn:E3; [lia|]. cbn [andb]. rewrite orb_false_r.
+      rewrite getbit_nthz, E. reflexivity.
+    + apply getbit_same_byte. rewrite N by lia.
+      destruct (q / 8 =? bp + i + 1) eqn:E1; [lia|]. destruct (q / 8 =? bp + i) eqn:E2; [lia|]. reflexivity.
+  - intros t Ht. set (q := 8 * (bp + i) + pib + t).
+    destruct (Z.ltb_spec (pib + t) 8) as [C|C].
+    + assert (E : q / 8 = bp + i) by (unfold q; lia).
+      assert (M : q mod 8 = pib + t) by (unfold q; lia).
+      rewrite (getbit_at _ q _ (N (q / 8) ltac:(lia))).
+      destruct (q / 8 =? bp + i + 1) eqn:E1; [lia|]. destruct (q / 8 =? bp + i) eqn:E2; [|lia].
+      rewrite abytes_byte1_bits by (auto; lia).
+      specialize (Hclean q ltac:(unfold q; lia)). rewrite getbit_nthz, E in Hclean. rewrite Hclean.
+      destruct (pib <=? q mod 8) eqn:E3; [|lia]. cbn [orb andb]. f_equal. lia.
+    + assert (E : q / 8 = bp + i + 1) by (unfold q; lia).
+      assert (M : q mod 8 = pib + t - 8) by (unfold q; lia).
+      rewrite (getbit_at _ q _ (N (q / 8) ltac:(lia))).
+      destruct (q / 8 =? bp + i + 1) eqn:E1; [|lia].
+      rewrite abytes_byte2_bits by lia.
+      destruct (q mod 8 <? pib) eqn:E3; [|lia]. cbn [andb]. f_equal. lia.
+  - intros q Hq.
+    assert (E : q / 8 = bp + i + 1) by lia.
+    rewrite (getbit_at _ q _ (N (q / 8) ltac:(lia))).
+    destruct (q / 8 =? bp + i + 1) eqn:E1; [|lia].
+    rewrite abytes_byte2_bits by lia.
+    destruct (q mod 8 <? pib) eqn:E3; [lia|reflexivity].
+Qed.
+
+Lemma append_bytes_loop_spec src bp pib : 0 <= bp -> 0 < pib < 8 -> forall k b i,
+  0 <= i -> i + Z.of_nat k <= len src -> bp + i + Z.of_nat k < len b ->
+  exists b', append_bytes_loop k b bp pib src i = COk b' /\ length b' = length b /\
+    (bytes_ok b -> bytes_ok b') /\
+    (bytes_ok src ->
+     (forall q, 8 * (bp + i) + pib <= q < 8 * (bp + i + 1) -> getbit b q = false) ->
+     (forall q, 0 <= q < 8 * (bp + i) + pib -> getbit b' q = getbit b q) /\
+     (forall t, 0 <= t < 8 * Z.of_nat k ->
+        getbit b' (8 * (bp + i) + pib + t) = getbit src (8 * i + t)) /\
+     (forall q, 8 * (bp + i + Z.of_nat k) + pib <= q < 8 * (bp + i + Z.of_nat k + 1) ->
+        getbit b' q = false)).
+Proof.
+  intros Hbp Hp. induction k as [|k IH]; intros b i Hi Hsrc Hb.
+  - exists b. cbn [append_bytes_loop]. repeat split; auto; try lia.
+    all: try (intros q Hq; apply H0; lia).
+  - cbn [append_bytes_loop]. rewrite rd_ok by lia. cbn [cbind].
+    rewrite rd_ok by lia. cbn [cbind]. rewrite wr_ok by lia. cbn [cbind].
+    rewrite wr_ok by (rewrite upd_len; lia). cbn [cbind].
+    fold (abytes_step b bp pib (nthz src i) i).
+    assert (L2 : length (abytes_step b bp pib (nthz src i) i) = length b)
+      by (unfold abytes_step; now rewrite !upd_length).
+    destruct (IH (abytes_step b bp pib (nthz src i) i) (i + 1)) as (b' & E & L & B & F);
+      try (unfold len in *; rewrite ?L2; lia).
+    exists b'. split; [exact E|]. split; [congruence|]. split.
+    + intros Bb. apply B. unfold abytes_step. repeat apply upd_bytes_ok; auto; apply is_byte_u8.
+    + intros Bs Hclean.
+      destruct (abytes_step_bits b bp pib (nthz src i) i) as (S1 & S2 & S3); auto; try lia.
+      { now apply nthz_is_byte. }
+      destruct (F Bs) as (F1 & F2 & F3).
+      { intros q Hq. apply S3. lia. }
+      split; [|split].
+      * intros q Hq. rewrite F1 by lia. apply S1. lia.
+      * intros t Ht. destruct (Z.ltb_spec t 8) as [C|C].
+        -- rewrite F1 by lia. rewrite S2 by lia.
+           rewrite getbit_nthz. replace ((8 * i + t) / 8) with i by lia.
+           replace ((8 * i + t) mod 8) with t by lia. reflexivity.
+        -- specialize (F2 (t - 8) ltac:(lia)).
+           replace (8 * (bp + (i + 1)) + pib + (t - 8)) with (8 * (bp + i) + pib + t) in F2 by lia.
+           rewrite F2. f_equal. lia.
+      * intros q Hq. apply F3. lia.
+Qed.
+
+(* ------------------------------------------------------------------ *)
+(** * append_bytes *)
+
+Lemma append_bytes_latched s src n : latched s -> 0 <= n < 576460752303423488 ->
+  append_bytes s src n = COk s.
+Proof.
+  intros L Hn. unfold append_bytes, encoder_alloc. rewrite u64_small by lia.
+  destruct (alloc_latched ENOMEM s (8 * n) L) as (p & -> & Hp); [lia|unfold ENOMEM; lia|].
+  cbn [cbind]. destruct (p <? 0) eqn:E; [reflexivity|lia].
+Qed.
+
+Lemma append_bytes_noroom s src n : live s -> 0 <= n < 576460752303423488 ->
+  size s < pos s + 8 * n -> append_bytes s src n = COk (abort s ENOMEM).
+Proof.
+  intros L Hn H. unfold append_bytes, encoder_alloc. rewrite u64_small by lia.
+  rewrite alloc_live_noroom by (auto; lia). cbn [cbind]. reflexivity.
+Qed.
+
+Lemma append_bytes_room s src n : live s -> 0 <= n <= len src -> pos s + 8 * n <= size s ->
+  exists b', append_bytes s src n = COk (mkCur b' (size s) (pos s + 8 * n)) /\
+    length b' = length (buf s) /\ (bytes_ok src -> bytes_ok b') /\
+    (bytes_ok src -> clean s ->
+      (forall q, 0 <= q < pos s -> getbit b' q = getbit (buf s) q) /\
+      (forall t, 0 <= t < 8 * n -> getbit b' (pos s + t) = getbit src t) /\
+      (forall q, pos s + 8 * n <= q < 8 * ((pos s + 8 * n + 7) / 8) -> getbit b' q = false)).
+Proof.
+  intros L Hn Hr. pose proof (live_len s L) as HL. pose proof L as (L1 & L2 & _ & L4).
+  unfold append_bytes, encoder_alloc. rewrite u64_small by lia.
+  rewrite alloc_live_room by (auto; lia). cbn [cbind buf size pos].
+  destruct (pos s <? 0) eqn:E; [lia|]. clear E.
+  rewrite Z.quot_div_nonneg, Z.rem_mod_nonneg by lia.
+  destruct (pos s mod 8 =? 0) eqn:E.
+  - destruct (memcpy_spec (buf s) (pos s / 8) src 0 n) as (d & -> & Ld & Bd & Nd); try lia.
+    cbn [cbind]. exists d. split; [reflexivity|]. split; [exact Ld|]. split; [auto|].
+    intros Bs _. split; [|split].
+    + intros q Hq. apply getbit_same_byte. rewrite Nd by lia.
+      destruct ((pos s / 8 <=? q / 8) && (q / 8 <? pos s / 8 + n)) eqn:E1; [lia|reflexivity].
+    + intros t Ht. rewrite getbit_nthz. rewrite Nd by lia.
+      destruct ((pos s / 8 <=? (pos s + t) / 8) && ((pos s + t) / 8 <? pos s / 8 + n)) eqn:E1; [|lia].
+      rewrite getbit_nthz. f_equal; [f_equal|]; lia.
+    + intros q Hq. lia.
+  - destruct (append_bytes_loop_spec src (pos s / 8) (pos s mod 8) ltac:(lia) ltac:(lia)
+               (Z.to_nat n) (buf s) 0) as (b' & -> & Lb & Bb & F); try lia.
+    cbn [cbind]. exists b'. split; [reflexivity|]. split; [exact Lb|]. split; [auto|].
+    intros Bs C. destruct (F Bs) as (F1 & F2 & F3).
+    { intros q Hq. apply C. lia. }
+    split; [|split].
+    + intros q Hq. apply F1. lia.
+    + intros t Ht. specialize (F2 t ltac:(lia)).
+      replace (8 * (pos s / 8 + 0) + pos s mod 8 + t) with (pos s + t) in F2 by lia.
+      rewrite F2. f_equal.
+    + intros q Hq. apply F3. lia.
+Qed.
+
+(* ------------------------------------------------------------------ *)
+(** * The bit view of append_bit *)
+
+Lemma abit_buf_bits b p v : 0 <= p -> p / 8 < len b -> 0 <= v <= 1 ->
+  (forall q, 0 <= q < p -> getbit (abit_buf b p v) q = getbit b q) /\
+  ((forall q, p <= q < 8 * ((p + 7) / 8) -> getbit b q = false) ->
+   getbit (abit_buf b p v) p = (v =? 1) /\
+   (forall q, p + 1 <= q < 8 * ((p + 1 + 7) / 8) -> getbit (abit_buf b p v) q = false)).
+Proof.
+  intros Hp Hl Hv.
+  set (old := if p mod 8 =? 0 then 0 else nthz b (p / 8)).
+  assert (N : forall j, 0 <= j -> nthz (abit_buf b p v) j =
+            if j =? p / 8 then u8 (Z.lor old (u8 (Z.shiftl v (7 - p mod 8)))) else nthz b j).
+  { intros j Hj. unfold abit_buf. fold old. now rewrite nthz_upd by lia. }
+  split; [|intros C; split].
+  - intros q Hq. destruct (Z.eq_dec (q / 8) (p / 8)) as [E|E].
+    + rewrite (getbit_at _ q _ (N (q / 8) ltac:(lia))).
+      destruct (q / 8 =? p / 8) eqn:E1; [|lia].
+      rewrite abit_byte_bits by lia.
+      destruct (q mod 8 =? p mod 8) eqn:E2; [lia|]. rewrite andb_false_r, orb_false_r.
+      unfold old. destruct (p mod 8 =? 0) eqn:E3; [lia|]. rewrite getbit_nthz, E. reflexivity.
+    + apply getbit_same_byte. rewrite N by lia.
+      destruct (q / 8 =? p / 8) eqn:E1; [lia|reflexivity].
+  - rewrite (getbit_at _ p _ (N (p / 8) ltac:(lia))). rewrite Z.eqb_refl.
+    rewrite abit_byte_bits by lia. rewrite Z.eqb_refl, andb_true_r.
+    unfold old. destruct (p mod 8 =? 0) eqn:E3.
+    + now rewrite Z.testbit_0_l.
+    + specialize (C p ltac:(lia)). rewrite getbit_nthz in C. now rewrite C.
+  - intros q Hq. assert (E : q / 8 = p / 8) by lia.
+    rewrite (getbit_at _ q _ (N (q / 8) ltac:(lia))).
+    destruct (q / 8 =? p / 8) eqn:E1; [|lia].
+    rewrite abit_byte_bits by lia.
+    destruct (q mod 8 =? p mod 8) eqn:E2; [lia|]. rewrite andb_false_r, orb_false_r.
+    unfold old. destruct (p mod 8 =? 0) eqn:E3.
+    + now rewrite Z.testbit_0_l.
+    + specialize (C q ltac:(lia)). rewrite getbit_nthz, E in C. exact C.
+Qed.
+
+(* ------------------------------------------------------------------ *)
+(** * [written] and [bits_at] as bit functions *)
+
+Lemma written_bitsf s : 0 <= pos s <= 8 * len (buf s) ->
+  written s = bitsf (getbit (buf s)) 0 (Z.to_nat (pos s)).
+Proof.
+  intros H. unfold written. rewrite bytes_bits_bitsf, firstn_bitsf. f_equal. unfold len in H. lia.
+Qed.
+
+Lemma bits_at_bitsf s n : 0 <= pos s -> 0 <= n -> pos s + n <= 8 * len (buf s) ->
+  bits_at s n = bitsf (getbit (buf s)) (pos s) (Z.to_nat n).
+Proof.
+  intros H1 H2 H3. unfold bits_at. rewrite bytes_bits_bitsf, skipn_bitsf, firstn_bitsf.
+  unfold len in H3. f_equal; lia.
+Qed.
+
+Lemma written_extend s s' bits :
+  0 <= pos s -> pos s' = pos s + len bits -> pos s' <= 8 * len (buf s') -> len (buf s') = len (buf s) ->
+  (forall q, 0 <= q < pos s -> getbit (buf s') q = getbit (buf s) q) ->
+  bitsf (getbit (buf s')) (pos s) (length bits) = bits ->
+  written s' = written s ++ bits.
+Proof.
+  intros H0 Hp Hs Hl Hlow Hnew. pose proof (len_nonneg bits).
+  rewrite !written_bitsf by lia.
+  replace (Z.to_nat (pos s')) with (Z.to_nat (pos s) + length bits)%nat by (unfold len in *; lia).
+  rewrite bitsf_app. f_equal.
+  - apply bitsf_ext. intros q Hq. apply Hlow. lia.
+  - rewrite <- Hnew at 2. f_equal. lia.
+Qed.
+
+Lemma append_bit_spec s v : live s -> 0 <= v <= 1 -> pos s + 1 <= size s -> clean s ->
+  let s' := mkCur (abit_buf (buf s) (pos s) v) (size s) (pos s + 1) in
+  clean s' /\ written s' = written s ++ [v =? 1].
+Proof.
+  intros L Hv Hr C s'. pose proof (live_len s L) as HL. pose proof L as (L1 & L2 & _).
+  destruct (abit_buf_bits (buf s) (pos s) v) as (B1 & B2); try lia.
+  destruct (B2 C) as (B3 & B4).
+  split.
+  - exact B4.
+  - subst s'. apply written_extend; cbn [buf pos]; unfold len in *; rewrite ?abit_buf_length;
+      change (length [v =? 1]) with 1%nat;
+      [lia | lia | lia | lia | exact B1 | cbn [bitsf]; now rewrite B3].
+Qed.
+
+(* ------------------------------------------------------------------ *)
+(** * One encoder call with room: the post-condition *)
+
+Definition enc_post (s s' : cur) (bits : list bool) : Prop :=
+  live s' /\ size s' = size s /\ length (buf s') = length (buf s) /\ pos s' = pos s + len bits /\
+  (clean s -> clean s' /\ written s' = written s ++ bits).
+
+Lemma enc_post_trans s s1 s2 l1 l2 :
+  enc_post s s1 l1 -> enc_post s1 s2 l2 -> enc_post s s2 (l1 ++ l2).
+Proof.
+  intros (A1 & A2 & A3 & A4 & A5) (B1 & B2 & B3 & B4 & B5).
+  unfold enc_post. split; [exact B1|]. split; [congruence|]. split; [congruence|]. split.
+  - unfold len in *. rewrite app_length. lia.
+  - intros H. destruct (A5 H) as (C1 & W1). destruct (B5 C1) as (C2 & W2).
+    split; [exact C2|]. rewrite W2, W1. now rewrite app_assoc.
+Qed.
+
+Lemma enc_post_refl s : live s -> enc_post s s [].
+Proof.
+  intros L. unfold enc_post. split; [exact L|]. split; [reflexivity|]. split; [reflexivity|]. split.
+  - change (len (@nil bool)) with 0. lia.
+  - intros C. split; [exact C|]. now rewrite app_nil_r.
+Qed.
+
+Lemma append_bit_post s v : live s -> 0 <= v <= 1 -> pos s + 1 <= size s ->
+  exists s', append_bit s v = COk s' /\ enc_post s s' [v =? 1].
+Proof.
+  intros L Hv Hr. rewrite append_bit_room by auto.
+  eexists; split; [reflexivity|]. unfold enc_post. cbn [buf size pos].
+  split; [now apply abit_live|]. split; [reflexivity|]. split; [apply abit_buf_length|].
+  split; [reflexivity|]. intros C. now apply append_bit_spec.
+Qed.
+
+Lemma append_bytes_post s src n :
+  live s -> 0 <= n <= len src -> bytes_ok src -> pos s + 8 * n <= size s ->
+  exists s', append_bytes s src n = COk s' /\ enc_post s s' (bytes_bits (firstn (Z.to_nat n) src)).
+Proof.
+  intros L Hn Bs Hr. pose proof (live_len s L) as HL. pose proof L as (L1 & L2 & L3 & L4).
+  destruct (append_bytes_room s src n L Hn Hr) as (b' & E & Lb & Bb & F).
+  eexists; split; [exact E|].
+  assert (LF : length (firstn (Z.to_nat n) src) = Z.to_nat n)
+    by (rewrite firstn_length; unfold len in *; lia).
+  assert (LB : len (bytes_bits (firstn (Z.to_nat n) src)) = 8 * n)
+    by (unfold len; rewrite bytes_bits_length, LF; lia).
+  unfold enc_post. cbn [buf size pos]. rewrite LB.
+  split.
+  { unfold live, len in *. cbn [buf size pos]. rewrite Lb. repeat split; auto; lia. }
+  split; [reflexivity|]. split; [exact Lb|]. split; [reflexivity|].
+  intros C. destruct (F Bs C) as (F1 & F2 & F3). split; [exact F3|].
+  apply written_extend; cbn [buf pos];
+    [lia | lia | unfold len in *; rewrite Lb; lia | unfold len; now rewrite Lb | exact F1 | ].
+  - rewrite bytes_bits_length, LF.
+    rewrite (bytes_bits_bitsf (firstn _ _)), LF.
+    replace (pos s) with (0 + pos s) at 1 by lia. rewrite bitsf_shift.
+    apply bitsf_ext. intros i Hi.
+    replace (i + pos s) with (pos s + i) by lia. rewrite F2 by lia.
+    symmetry. apply getbit_firstn. lia.
+Qed.
+
+Lemma append_be_bytes_post s k w : live s -> pos s + 8 * Z.of_nat k <= size s ->
+  exists s', append_bytes s (be_bytes k w) (Z.of_nat k) = COk s' /\ enc_post s s' (be_bits (8 * k) w).
+Proof.
+  intros L Hr.
+  destruct (append_bytes_post s (be_bytes k w) (Z.of_nat k)) as (s' & E & P); auto.
+  - unfold len. rewrite be_bytes_length. lia.
+  - apply be_bytes_ok.
+  - exists s'. split; [exact E|]. rewrite Nat2Z.id in P.
+    rewrite firstn_all2 in P by (rewrite be_bytes_length; lia).
+    now rewrite bytes_bits_be_bytes in P.
+Qed.
+
+(* ------------------------------------------------------------------ *)
+(** * append_nnbi *)
+
+Lemma nnbi_bit_range value sh : 0 <= sh -> 0 <= Z.land (Z.shiftr value sh) 1 <= 1.
+Proof. intros H. rewrite land_shiftr_1 by lia. destruct (Z.testbit value sh); lia. Qed.
+
+Lemma append_nnbi_loop_latched value n : forall k s i, latched s -> 0 <= i -> i + Z.of_nat k <= n <= 64 ->
+  append_nnbi_loop k s value n i = COk s.
+Proof.
+  induction k as [|k IH]; intros s i L Hi Hn; [reflexivity|].
+  cbn [append_nnbi_loop].
+  destruct ((n - i - 1 <? 0) || (64 <=? n - i - 1)) eqn:E; [lia|].
+  rewrite append_bit_latched by auto. cbn [cbind]. apply IH; auto; lia.
+Qed.
+
+Lemma append_nnbi_loop_post value n : forall k s i, live s -> 0 <= i -> i + Z.of_nat k <= n <= 64 ->
+  pos s + Z.of_nat k <= size s ->
+  exists s', append_nnbi_loop k s value n i = COk s' /\
+             enc_post s s' (bitsf (fun j => Z.testbit value (n - 1 - j)) i k).
+Proof.
+  induction k as [|k IH]; intros s i L Hi Hn Hr.
+  - exists s. split; [reflexivity|]. now apply enc_post_refl.
+  - cbn [append_nnbi_loop].
+    destruct ((n - i - 1 <? 0) || (64 <=? n - i - 1)) eqn:E; [lia|]. clear E.
+    destruct (append_bit_post s (Z.land (Z.shiftr value (n - i - 1)) 1)) as (s1 & -> & P1); auto;
+      [apply nnbi_bit_range; lia | lia |].
+    cbn [cbind]. pose proof P1 as (L1 & S1 & _ & Q1 & _). change (len [_]) with 1 in Q1.
+    destruct (IH s1 (i + 1)) as (s2 & -> & P2); auto; try lia.
+    exists s2. split; [reflexivity|].
+    cbn [bitsf]. change (?x :: ?l) with ([x] ++ l).
+    eapply enc_post_trans; [|exact P2].
+    rewrite land_shiftr_1 in P1 by lia.
+    replace (n - 1 - i) with (n - i - 1) by lia.
+    destruct (Z.testbit value (n - i - 1)); exact P1.
+Qed.
+
+Lemma append_nnbi_loop_noroom value n : forall k s i, live s -> 0 <= i -> i + Z.of_nat k <= n <= 64 ->
+  size s < pos s + Z.of_nat k ->
+  exists s', append_nnbi_loop k s value n i = COk s' /\ latched s' /\ pos s' = - ENOMEM /\
+             length (buf s') = length (buf s).
+Proof.
+  induction k as [|k IH]; intros s i L Hi Hn Hr.
+  - destruct L as (_ & L2 & _). lia.
+  - cbn [append_nnbi_loop].
+    destruct ((n - i - 1 <? 0) || (64 <=? n - i - 1)) eqn:E; [lia|]. clear E.
+    destruct (Z.le_gt_cases (pos s + 1) (size s)) as [R|R].
+    + destruct (append_bit_post s (Z.land (Z.shiftr value (n - i - 1)) 1)) as (s1 & -> & P1); auto;
+        [apply nnbi_bit_range; lia |].
+      cbn [cbind]. destruct P1 as (L1 & S1 & B1 & Q1 & _). change (len [_]) with 1 in Q1.
+      destruct (IH s1 (i + 1)) as (s2 & -> & P2); auto; try lia.
+      exists s2. split; [reflexivity|]. destruct P2 as (P21 & P22 & P23).
+      split; [exact P21|]. split; [exact P22|]. congruence.
+    + rewrite append_bit_noroom by (auto; lia). cbn [cbind].
+      rewrite append_nnbi_loop_latched; auto; try lia.
+      * eexists; split; [reflexivity|]. rewrite abort_live by auto. cbn [buf pos].
+        split; [|auto]. unfold latched, ENOMEM; cbn; lia.
+      * apply abort_live_latched; auto. unfold ENOMEM; lia.
+Qed.
+
+(* ------------------------------------------------------------------ *)
+(** * Every encoder call *)
+
+Lemma be_bits_congr n a b : a mod 2 ^ Z.of_nat n = b mod 2 ^ Z.of_nat n -> be_bits n a = be_bits n b.
+Proof.
+  intros H. rewrite <- (be_bits_mod n n a), <- (be_bits_mod n n b) by lia. now rewrite H.
+Qed.
+
+Lemma append_uint8_eq s v : append_uint8 s v = append_bytes s (be_bytes 1 (u8 v)) (Z.of_nat 1).
+Proof. reflexivity. Qed.
+Lemma append_uint16_eq s v : append_uint16 s v = append_bytes s (be_bytes 2 (u16 v)) (Z.of_nat 2).
+Proof. reflexivity. Qed.
+Lemma append_uint32_eq s v : append_uint32 s v = append_bytes s (be_bytes 4 (u32 v)) (Z.of_nat 4).
+Proof. reflexivity. Qed.
+Lemma append_uint64_eq s v : append_uint64 s v = append_bytes s (be_bytes 8 (u64 v)) (Z.of_nat 8).
+Proof. reflexivity. Qed.
+
+Lemma append_uint8_post s v w : live s -> pos s + 8 <= size s -> v mod 256 = w mod 256 ->
+  exists s', append_uint8 s v = COk s' /\ enc_post s s' (be_bits 8 w).
+Proof.
+  intros L Hr E. rewrite append_uint8_eq.
+  destruct (append_be_bytes_post s 1 (u8 v) L) as (s' & -> & P); [lia|].
+  exists s'. split; [reflexivity|]. change (8 * 1)%nat with 8%nat in P.
+  rewrite (be_bits_congr 8 (u8 v) w) in P; auto.
+  unfold u8. change (2 ^ Z.of_nat 8) with 256. lia.
+Qed.
+
+Lemma append_uint16_post s v w : live s -> pos s + 16 <= size s -> v mod 65536 = w mod 65536 ->
+  exists s', append_uint16 s v = COk s' /\ enc_post s s' (be_bits 16 w).
+Proof.
+  intros L Hr E. rewrite append_uint16_eq.
+  destruct (append_be_bytes_post s 2 (u16 v) L) as (s' & -> & P); [lia|].
+  exists s'. split; [reflexivity|]. change (8 * 2)%nat with 16%nat in P.
+  rewrite (be_bits_congr 16 (u16 v) w) in P; auto.
+  unfold u16. change (2 ^ Z.of_nat 16) with 65536. lia.
+Qed.
+
+Lemma append_uint32_post s v w : live s -> pos s + 32 <= size s -> v mod 4294967296 = w mod 4294967296 ->
+  exists s', append_uint32 s v = COk s' /\ enc_post s s' (be_bits 32 w).
+Proof.
+  intros L Hr E. rewrite append_uint32_eq.
+  destruct (append_be_bytes_post s 4 (u32 v) L) as (s' & -> & P); [lia|].
+  exists s'. split; [reflexivity|]. change (8 * 4)%nat with 32%nat in P.
+  rewrite (be_bits_congr 32 (u32 v) w) in P; auto.
+  unfold u32. change (2 ^ Z.of_nat 32) with 4294967296. lia.
+Qed.
+
+Lemma append_uint64_post s v w : live s -> pos s + 64 <= size s ->
+  v mod 18446744073709551616 = w mod 18446744073709551616 ->
+  exists s', append_uint64 s v = COk s' /\ enc_post s s' (be_bits 64 w).
+Proof.
+  intros L Hr E. rewrite append_uint64_eq.
+  destruct (append_be_bytes_post s 8 (u64 v) L) as (s' & -> & P); [lia|].
+  exists s'. split; [reflexivity|]. change (8 * 8)%nat with 64%nat in P.
+  rewrite (be_bits_congr 64 (u64 v) w) in P; auto.
+  unfold u64. change (2 ^ Z.of_nat 64) with 18446744073709551616. lia.
+Qed.
+
+Lemma eop_room s o : live s -> eop_ok o -> eop_is_abort o = false -> pos s + eop_bits o <= size s ->
+  exists s', run_eop s o = COk s' /\ enc_post s s' (eop_spec o).
+Proof.
+  intros L Ok NA Hr.
+  destruct o; cbn [run_eop eop_spec eop_bits eop_ok eop_is_abort] in *; try discriminate.
+  - apply append_bit_post; auto.
+  - unfold append_bool. destruct b.
+    + apply (append_bit_post s 1); auto; lia.
+    + apply (append_bit_post s 0); auto; lia.
+  - destruct Ok as (H1 & H2 & H3). apply append_bytes_post; auto.
+  - unfold append_nnbi.
+    destruct (append_nnbi_loop_post (u64 v) n (Z.to_nat n) s 0) as (s' & E & P); auto; try lia.
+    exists s'. split; [exact E|].
+    rewrite <- (be_bits_mod (Z.to_nat n) 64 v) by lia.
+    rewrite be_bits_bitsf, Z2Nat.id by lia. exact P.
+  - apply append_uint8_post; auto.
+  - apply append_uint16_post; auto.
+  - apply append_uint32_post; auto.
+  - apply append_uint64_post; auto.
+  - unfold append_int8. apply append_uint8_post; auto. unfold u8, s8. lia.
+  - unfold append_int16. apply append_uint16_post; auto. unfold u16, s16. lia.
+  - unfold append_int32. apply append_uint32_post; auto. unfold u32, s32. lia.
+  - unfold append_int64. apply append_uint64_post; auto. unfold u64, s64. lia.
+Qed.
+
+Lemma eop_latched s o : latched s -> eop_ok o -> run_eop s o = COk s.
+Proof.
+  intros L Ok.
+  destruct o; cbn [run_eop eop_ok] in *;
+    unfold append_int8, append_int16, append_int32, append_int64;
+    rewrite ?append_uint8_eq, ?append_uint16_eq, ?append_uint32_eq, ?append_uint64_eq;
+    try (apply append_bytes_latched; auto; lia).
+  - now apply append_bit_latched.
+  - now apply append_bit_latched.
+  - unfold append_nnbi. apply append_nnbi_loop_latched; auto; lia.
+  - now rewrite abort_latched.
+Qed.
+
+Lemma eop_noroom s o : live s -> eop_ok o -> eop_is_abort o = false -> size s < pos s + eop_bits o ->
+  exists s', run_eop s o = COk s' /\ latched s' /\ pos s' = - ENOMEM /\
+             length (buf s') = length (buf s).
+Proof.
+  intros L Ok NA Hr.
+  assert (A : exists s', COk (abort s ENOMEM) = COk s' /\ latched s' /\ pos s' = - ENOMEM /\
+             length (buf s') = length (buf s)).
+  { eexists; split; [reflexivity|]. split; [apply abort_live_latched; auto; unfold ENOMEM; lia|].
+    rewrite abort_live by auto. split; reflexivity. }
+  destruct o; cbn [run_eop eop_bits eop_ok eop_is_abort] in *; try discriminate;
+    unfold append_int8, append_int16, append_int32, append_int64;
+    rewrite ?append_uint8_eq, ?append_uint16_eq, ?append_uint32_eq, ?append_uint64_eq;
+    try (rewrite append_bytes_noroom by (auto; lia); exact A).
+  - rewrite append_bit_noroom by auto. exact A.
+  - unfold append_bool. rewrite append_bit_noroom by auto. exact A.
+  - unfold append_nnbi. apply append_nnbi_loop_noroom; auto; lia.
+Qed.
+
+(* ------------------------------------------------------------------ *)
+(** * Group 1: in bounds, latch (encoder) *)
+
+Theorem eop_in_bounds : forall s o, wf s -> eop_ok o ->
+  exists s', run_eop s o = COk s' /\ wf s' /\ length (buf s') = length (buf s) /\ (latched s -> s' = s).
+Proof.
+  intros s o [L|L] Ok.
+  - assert (NL : latched s -> False) by (destruct L as (_ & L2 & _); intros [H1 H2]; lia).
+    destruct (eop_is_abort o) eqn:NA.
+    + destruct o; try discriminate. cbn [run_eop eop_ok] in *.
+      eexists; split; [reflexivity|]. split; [right; now apply abort_live_latched|].
+      rewrite abort_live by auto. split; [reflexivity|]. intros H; destruct (NL H).
+    + destruct (Z.le_gt_cases (pos s + eop_bits o) (size s)) as [R|R].
+      * destruct (eop_room s o L Ok NA R) as (s' & E & P1 & _ & P3 & _).
+        exists s'. split; [exact E|]. split; [now left|]. split; [exact P3|]. intros H; destruct (NL H).
+      * destruct (eop_noroom s o L Ok NA R) as (s' & E & P1 & _ & P3).
+        exists s'. split; [exact E|]. split; [now right|]. split; [exact P3|]. intros H; destruct (NL H).
+  - exists s. split; [now apply eop_latched|]. split; [now right|]. split; auto.
+Qed.
+
+Theorem helpers_in_bounds_enc : forall os s, wf s -> Forall eop_ok os ->
+  exists s', run_eops s os = COk s' /\ wf s' /\ length (buf s') = length (buf s) /\ (latched s -> s' = s).
+Proof.
+  induction os as [|o os IH]; intros s W F.
+  - exists s. cbn [run_eops]. repeat split; auto.
+  - inversion F as [|? ? Ho Hos]; subst. cbn [run_eops].
+    destruct (eop_in_bounds s o W Ho) as (s1 & -> & W1 & L1 & K1). cbn [cbind].
+    destruct (IH s1 W1 Hos) as (s2 & E & W2 & L2 & K2).
+    exists s2. split; [exact E|]. split; [exact W2|]. split; [congruence|].
+    intros H. specialize (K1 H). subst s1. now apply K2.
+Qed.
+
+Theorem enc_overflow_latches : forall s o, live s -> eop_ok o -> eop_is_abort o = false ->
+  size s < pos s + eop_bits o ->
+  exists s', run_eop s o = COk s' /\ latched s' /\ get_result s' = - ENOMEM.
+Proof.
+  intros s o L Ok NA R. destruct (eop_noroom s o L Ok NA R) as (s' & E & P1 & P2 & _).
+  exists s'. split; [exact E|]. split; [exact P1|]. now rewrite get_result_latched.
+Qed.
+
+Lemma run_eops_app s os1 os2 :
+  run_eops s (os1 ++ os2) = let+ s1 := run_eops s os1 in run_eops s1 os2.
+Proof.
+  revert s; induction os1 as [|o os1 IH]; intros s; [reflexivity|].
+  cbn [app run_eops]. destruct (run_eop s o); cbn [cbind]; auto.
+Qed.
+
+Theorem enc_latch_sticky : forall os1 os2 s s1, wf s -> Forall eop_ok (os1 ++ os2) ->
+  run_eops s os1 = COk s1 -> latched s1 -> run_eops s (os1 ++ os2) = COk s1.
+Proof.
+  intros os1 os2 s s1 W F E L. rewrite run_eops_app, E. cbn [cbind].
+  apply Forall_app in F. destruct F as [_ F2].
+  destruct (helpers_in_bounds_enc os2 s1 (or_intror L) F2) as (s2 & E2 & _ & _ & K).
+  rewrite E2. f_equal. now apply K.
+Qed.
+
+(* ================================================================== *)
+(** * Decoder *)
+
+(** A reader: what one decoder call does in the three regimes (latched,
+    live without room, live with room).  [Q] holds for every returned value. *)
+Definition reader_ok {A} (R : cur -> cres (cur * A)) (bits : Z) (val : cur -> A) (Q : A -> Prop) : Prop :=
+  (forall s, latched s -> exists a, R s = COk (s, a) /\ Q a) /\
+  (forall s, live s -> size s < pos s + bits -> exists a, R s = COk (abort s EOUTOFDATA, a) /\ Q a) /\
+  (forall s, live s -> pos s + bits <= size s ->
+     R s = COk (mkCur (buf s) (size s) (pos s + bits), val s) /\ Q (val s)).
+
+Lemma reader_ok_bind {A B} (R : cur -> cres (cur * A)) bits val Q
+      (K : cur -> A -> cres (cur * B)) (g : A -> B) (Q' : B -> Prop) :
+  reader_ok R bits val Q ->
+  (forall s1 a, Q a -> K s1 a = COk (s1, g a)) -> (forall a, Q a -> Q' (g a)) ->
+  reader_ok (fun s => let+ (s1, a) := R s in K s1 a) bits (fun s => g (val s)) Q'.
+Proof.
+  intros (R1 & R2 & R3) HK HQ. split; [|split].
+  - intros s L. destruct (R1 s L) as (a & -> & Qa). cbn [cbind]. exists (g a). split; auto.
+  - intros s L H. destruct (R2 s L H) as (a & -> & Qa). cbn [cbind]. exists (g a). split; auto.
+  - intros s L H. destruct (R3 s L H) as (-> & Qa). cbn [cbind]. split; auto.
+Qed.
+
+Lemma reader_ok_val {A} (R : cur -> cres (cur * A)) bits val val' Q :
+  reader_ok R bits val Q ->
+  (forall s, live s -> pos s + bits <= size s -> val s = val' s) ->
+  reader_ok R bits val' Q.
+Proof.
+  intros (R1 & R2 & R3) HV. split; [|split]; auto.
+  intros s L H. rewrite <- (HV s L H). auto.
+Qed.
+
+(** ** read_bit *)
+
+Lemma read_bit_latched s : latched s -> read_bit s = COk (s, 0).
+Proof.
+  intros L. unfold read_bit, decoder_free.
+  destruct (alloc_latched EOUTOFDATA s 1 L) as (p & -> & Hp); [lia|unfold EOUTOFDATA; lia|].
+  cbn [cbind]. destruct (p >=? 0) eqn:E; [lia|reflexivity].
+Qed.
+
+Lemma read_bit_noroom s : live s -> size s < pos s + 1 -> read_bit s = COk (abort s EOUTOFDATA, 0).
+Proof.
+  intros L H. unfold read_bit, decoder_free.
+  rewrite alloc_live_noroom by (auto; lia). cbn [cbind]. reflexivity.
+Qed.
+
+Lemma read_bit_room s : live s -> pos s + 1 <= size s ->
+  read_bit s = COk (mkCur (buf s) (size s) (pos s + 1), if getbit (buf s) (pos s) then 1 else 0).
+Proof.
+  intros L Hr. pose proof (live_len s L) as HL. pose proof L as (L1 & L2 & _).
+  unfold read_bit, decoder_free. rewrite alloc_live_room by (auto; lia).
+  cbn [cbind buf size pos].
+  destruct (pos s >=? 0) eqn:E; [|lia]. clear E.
+  rewrite Z.quot_div_nonneg, Z.rem_mod_nonneg by lia.
+  rewrite rd_ok by lia. cbn [cbind]. rewrite land_shiftr_1 by lia. reflexivity.
+Qed.
+
+Lemma read_bit_reader :
+  reader_ok read_bit 1 (fun s => if getbit (buf s) (pos s) then 1 else 0) (fun _ => True).
+Proof.
+  split; [|split].
+  - intros s L. exists 0. split; auto. now apply read_bit_latched.
+  - intros s L H. exists 0. split; auto. now apply read_bit_noroom.
+  - intros s L H. split; auto. now apply read_bit_room.
+Qed.
+
+(** ** read_bytes *)
+
+Definition rbyte (b : list Z) (bp pib j : Z) : Z :=
+  u8 (Z.lor (u8 (Z.shiftl (nthz b (bp + j)) pib)) (Z.shiftr (nthz b (bp + j + 1)) (8 - pib))).
+
+Lemma read_bytes_loop_spec b bp pib : 0 <= bp -> forall k dst i,
+  0 <= i -> i + Z.of_nat k <= len dst -> bp + i + Z.of_nat k < len b ->
+  exists d, read_bytes_loop k b bp pib dst i = COk d /\ length d = length dst /\
+    forall j, 0 <= j ->
+      nthz d j = if (i <=? j) && (j <? i + Z.of_nat k) then rbyte b bp pib j else nthz dst j.
+Proof.
+  intros Hbp. induction k as [|k IH]; intros dst i Hi Hd Hb.
+  - exists dst. cbn [read_bytes_loop]. split; [reflexivity|]. split; [reflexivity|].
+    intros j Hj. destruct ((i <=? j) && (j <? i + Z.of_nat 0)) eqn:E; [lia|reflexivity].
+  - cbn [read_bytes_loop]. rewrite rd_ok by lia. cbn [cbind].
+    rewrite wr_ok by lia. cbn [cbind]. rewrite rd_ok by lia. cbn [cbind].
+    rewrite rd_ok by (rewrite upd_len; lia). cbn [cbind].
+    rewrite wr_ok by (rewrite upd_len; lia). cbn [cbind].
+    rewrite upd_upd. rewrite nthz_upd by lia. rewrite Z.eqb_refl.
+    fold (rbyte b bp pib i).
+    destruct (IH (upd dst (Z.to_nat i) (rbyte b bp pib i)) (i + 1)) as (d & E & L & N);
+      try rewrite upd_len; try lia.
+    exists d. split; [exact E|]. split; [now rewrite L, upd_length|].
+    intros j Hj. rewrite N by lia. rewrite nthz_upd by lia.
+    destruct ((i + 1 <=? j) && (j <? i + 1 + Z.of_nat k)) eqn:E1;
+    destruct ((i <=? j) && (j <? i + Z.of_nat (S k))) eqn:E2;
+    destruct (j =? i) eqn:E3; try lia; try reflexivity.
+    f_equal. lia.
+Qed.
+
+Lemma read_bytes_latched s dst n : latched s -> 0 <= n < 576460752303423488 ->
+  read_bytes s dst n = COk (s, dst).
+Proof.
+  intros L Hn. unfold read_bytes, decoder_free. rewrite u64_small by lia.
+  destruct (alloc_latched EOUTOFDATA s (8 * n) L) as (p & -> & Hp); [lia|unfold EOUTOFDATA; lia|].
+  cbn [cbind]. destruct (p <? 0) eqn:E; [reflexivity|lia].
+Qed.
+
+Lemma read_bytes_noroom s dst n : live s -> 0 <= n < 576460752303423488 ->
+  size s < pos s + 8 * n -> read_bytes s dst n = COk (abort s EOUTOFDATA, dst).
+Proof.
+  intros L Hn H. unfold read_bytes, decoder_free. rewrite u64_small by lia.
+  rewrite alloc_live_noroom by (auto; lia). cbn [cbind]. reflexivity.
+Qed.
+
+Lemma read_bytes_room s dst n : live s -> 0 <= n <= len dst -> pos s + 8 * n <= size s ->
+  exists d, read_bytes s dst n = COk (mkCur (buf s) (size s) (pos s + 8 * n), d) /\
+    length d = length dst /\
+    (forall j, n <= j -> nthz d j = nthz dst j) /\
+    (forall j, 0 <= j < n -> is_byte (nthz d j)) /\
+    (forall j t, 0 <= j < n -> 0 <= t < 8 ->
+       Z.testbit (nthz d j) (7 - t) = getbit (buf s) (pos s + 8 * j + t)).
+Proof.
+  intros L Hn Hr. pose proof (live_len s L) as HL. pose proof L as (L1 & L2 & _ & L4).
+  unfold read_bytes, decoder_free. rewrite u64_small by lia.
+  rewrite alloc_live_room by (auto; lia). cbn [cbind buf size pos].
+  destruct (pos s <? 0) eqn:E; [lia|]. clear E.
+  rewrite Z.quot_div_nonneg, Z.rem_mod_nonneg by lia.
+  destruct (pos s mod 8 =? 0) eqn:E.
+  - destruct (memcpy_spec dst 0 (buf s) (pos s / 8) n) as (d & -> & Ld & _ & Nd); try lia.
+    cbn [cbind]. exists d. split; [reflexivity|]. split; [exact Ld|]. split; [|split].
+    + intros j Hj. rewrite Nd by lia. destruct ((0 <=? j) && (j <? 0 + n)) eqn:E1; [lia|reflexivity].
+    + intros j Hj. rewrite Nd by lia. destruct ((0 <=? j) && (j <? 0 + n)) eqn:E1; [|lia].
+      now apply nthz_is_byte.
+    + intros j t Hj Ht. rewrite Nd by lia. destruct ((0 <=? j) && (j <? 0 + n)) eqn:E1; [|lia].
+      rewrite getbit_nthz. f_equal; [f_equal|]; lia.
+  - destruct (read_bytes_loop_spec (buf s) (pos s / 8) (pos s mod 8) ltac:(lia) (Z.to_nat n) dst 0)
+      as (d & -> & Ld & Nd); try lia.
+    cbn [cbind]. exists d. split; [reflexivity|]. split; [exact Ld|]. split; [|split].
+    + intros j Hj. rewrite Nd by lia.
+      destruct ((0 <=? j) && (j <? 0 + Z.of_nat (Z.to_nat n))) eqn:E1; [lia|reflexivity].
+    + intros j Hj. rewrite Nd by lia.
+      destruct ((0 <=? j) && (j <? 0 + Z.of_nat (Z.to_nat n))) eqn:E1; [|lia].
+      apply is_byte_u8.
+    + intros j t Hj Ht. rewrite Nd by lia.
+      destruct ((0 <=? j) && (j <? 0 + Z.of_nat (Z.to_nat n))) eqn:E1; [|lia].
+      unfold rbyte. rewrite rbytes_byte_bits; try lia; try (now apply nthz_is_byte).
+      rewrite getbit_nthz.
+      destruct (t + pos s mod 8 <? 8) eqn:E2; (f_equal; [f_equal|]; lia).
+Qed.
+
+Lemma read_bytes_post s dst n : live s -> 0 <= n <= len dst -> pos s + 8 * n <= size s ->
+  read_bytes s dst n =
+  COk (mkCur (buf s) (size s) (pos s + 8 * n),
+       unpack_bytes (Z.to_nat n) (bits_at s (8 * n)) ++ skipn (Z.to_nat n) dst).
+Proof.
+  intros L Hn Hr. pose proof (live_len s L) as HL. pose proof L as (L1 & L2 & _ & L4).
+  destruct (read_bytes_room s dst n L Hn Hr) as (d & -> & Ld & N1 & N2 & N3).
+  do 2 f_equal.
+  set (l := firstn (Z.to_nat n) d).
+  assert (Ll : length l = Z.to_nat n) by (unfold l; rewrite firstn_length; unfold len in *; lia).
+  assert (Nl : forall j, 0 <= j < n -> nthz l j = nthz d j)
+    by (intros j Hj; unfold l; apply nthz_firstn; lia).
+  assert (Bl : bytes_ok l).
+  { apply Forall_nth. intros i d0 Hi. rewrite (nth_indep l d0 0 Hi).
+    specialize (Nl (Z.of_nat i) ltac:(lia)). unfold nthz in Nl at 1. rewrite Nat2Z.id in Nl.
+    rewrite Nl. apply N2. lia. }
+  assert (El : bytes_bits l = bits_at s (8 * n)).
+  { rewrite bits_at_bitsf by lia. rewrite bytes_bits_bitsf, Ll.
+    replace (Z.to_nat (8 * n)) with (8 * Z.to_nat n)%nat by lia.
+    replace (pos s) with (0 + pos s) at 1 by lia. rewrite bitsf_shift.
+    apply bitsf_ext. intros q Hq. rewrite getbit_nthz. rewrite Nl by lia.
+    replace (7 - q mod 8) with (7 - (q mod 8)) by lia. rewrite N3 by lia. f_equal. lia. }
+  assert (Ed : d = l ++ skipn (Z.to_nat n) dst).
+  { apply nthz_ext.
+    - rewrite app_length, skipn_length, Ll. unfold len in *. lia.
+    - intros i Hi. destruct (Z.ltb_spec i n).
+      + rewrite nthz_app_l by (unfold len; lia). symmetry. apply Nl. lia.
+      + rewrite nthz_app_r by (unfold len; lia). rewrite nthz_skipn by (unfold len; lia).
+        rewrite N1 by lia. f_equal. unfold len. lia. }
+  rewrite Ed at 1. f_equal.
+  rewrite <- El, <- Ll. rewrite <- (app_nil_r (bytes_bits l)). symmetry. now apply unpack_bytes_bits.
+Qed.
+
+Lemma read_bytes_reader dst n : 0 <= n <= len dst -> n < 576460752303423488 ->
+  reader_ok (fun s => read_bytes s dst n) (8 * n)
+    (fun s => unpack_bytes (Z.to_nat n) (bits_at s (8 * n)) ++ skipn (Z.to_nat n) dst)
+    (fun d => length d = length dst).
+Proof.
+  intros Hn Hn2. split; [|split].
+  - intros s L. exists dst. split; auto. apply read_bytes_latched; auto; lia.
+  - intros s L H. exists dst. split; auto. apply read_bytes_noroom; auto; lia.
+  - intros s L H. split; [now apply read_bytes_post|].
+    rewrite app_length, unpack_bytes_length, skipn_length. unfold len in *. lia.
+Qed.
+
+(** ** read_nnbi *)
+
+Lemma read_nnbi_loop_latched : forall k s acc, latched s ->
+  exists a, read_nnbi_loop k s acc = COk (s, a).
+Proof.
+  induction k as [|k IH]; intros s acc L; cbn [read_nnbi_loop]; [eauto|].
+  rewrite read_bit_latched by auto. cbn [cbind]. now apply IH.
+Qed.
+
+Lemma abort_adv s e n : live s -> abort (mkCur (buf s) (size s) n) e = abort s e.
+Proof.
+  intros (L1 & L2 & _). unfold abort. cbn [buf size pos].
+  destruct (size s >=? 0) eqn:E; [reflexivity|lia].
+Qed.
+
+Lemma live_adv s n : live s -> 0 <= n -> pos s + n <= size s -> live (mkCur (buf s) (size s) (pos s + n)).
+Proof. intros (L1 & L2 & L3 & L4) H1 H2. unfold live. cbn [buf size pos]. repeat split; auto; lia. Qed.
+
+Lemma read_nnbi_loop_noroom : forall k s acc, live s -> size s < pos s + Z.of_nat k ->
+  exists a, read_nnbi_loop k s acc = COk (abort s EOUTOFDATA, a).
+Proof.
+  induction k as [|k IH]; intros s acc L H.
+  - destruct L as (_ & L2 & _). lia.
+  - cbn [read_nnbi_loop]. destruct (Z.le_gt_cases (pos s + 1) (size s)) as [R|R].
+    + rewrite read_bit_room by auto. cbn [cbind].
+      destruct (IH (mkCur (buf s) (size s) (pos s + 1))
+                   (Z.lor (u64 (Z.shiftl acc 1)) (u64 (if getbit (buf s) (pos s) then 1 else 0))))
+        as (a & E).
+      * apply live_adv; auto; lia.
+      * cbn [size pos]. lia.
+      * rewrite abort_adv in E by auto. eauto.
+    + rewrite read_bit_noroom by (auto; lia). cbn [cbind].
+      apply read_nnbi_loop_latched. apply abort_live_latched; auto. unfold EOUTOFDATA; lia.
+Qed.
+
+Lemma read_nnbi_loop_room : forall k s acc, live s -> pos s + Z.of_nat k <= size s ->
+  0 <= acc -> (acc + 1) * 2 ^ Z.of_nat k <= 18446744073709551616 ->
+  read_nnbi_loop k s acc =
+  COk (mkCur (buf s) (size s) (pos s + Z.of_nat k),
+       bits_value_acc acc (bitsf (getbit (buf s)) (pos s) k)).
+Proof.
+  induction k as [|k IH]; intros s acc L H Ha Hb.
+  - cbn [read_nnbi_loop bitsf bits_value_acc]. do 2 f_equal. rewrite <- (cur_eta s) at 1. f_equal. lia.
+  - cbn [read_nnbi_loop]. rewrite read_bit_room by (auto; lia). cbn [cbind].
+    rewrite Nat2Z.inj_succ, Z.pow_succ_r in Hb by lia.
+    assert (0 < 2 ^ Z.of_nat k) by (apply Z.pow_pos_nonneg; lia).
+    rewrite Z.shiftl_mul_pow2 by lia. change (2 ^ 1) with 2.
+    rewrite (u64_small (acc * 2)) by nia.
+    rewrite (u64_small (if getbit (buf s) (pos s) then 1 else 0))
+      by (destruct (getbit (buf s) (pos s)); lia).
+    rewrite (Z.mul_comm acc 2). rewrite lor_double_bit by lia.
+    rewrite IH.
+    + cbn [buf size pos bitsf bits_value_acc]. do 3 f_equal. lia.
+    + apply live_adv; auto; lia.
+    + cbn [size pos]. lia.
+    + destruct (getbit (buf s) (pos s)); lia.
+    + destruct (getbit (buf s) (pos s)); nia.
+Qed.
+
+Lemma read_nnbi_reader n : 0 <= n <= 64 ->
+  reader_ok (fun s => read_nnbi s n) n (fun s => bits_value (bits_at s n)) (fun _ => True).
+Proof.
+  intros Hn. unfold read_nnbi. split; [|split].
+  - intros s L. destruct (read_nnbi_loop_latched (Z.to_nat n) s 0 L) as (a & E). eauto.
+  - intros s L H. destruct (read_nnbi_loop_noroom (Z.to_nat n) s 0 L) as (a & E); [lia|]. eauto.
+  - intros s L H. split; auto. pose proof (live_len s L) as HL. pose proof L as (L1 & L2 & _).
+    rewrite read_nnbi_loop_room; auto; try lia.
+    + rewrite Z2Nat.id by lia. rewrite bits_at_bitsf by lia. reflexivity.
+    + rewrite Z2Nat.id by lia. change 18446744073709551616 with (2 ^ 64).
+      rewrite Z.mul_1_l. apply Z.pow_le_mono_r; lia.
+Qed.
+
+(** ** fixed-width readers *)
+
+Lemma junk_firstn junk k : junk_ok junk -> (k <= 8)%nat -> length (firstn k junk) = k.
+Proof. intros (_ & H) Hk. rewrite firstn_length. lia. Qed.
+
+Lemma bits_at_length s n : live s -> 0 <= n -> pos s + n <= size s -> length (bits_at s n) = Z.to_nat n.
+Proof.
+  intros L Hn H. pose proof L as (L1 & L2 & _).
+  rewrite bits_at_bitsf by lia. apply bitsf_length.
+Qed.
+
+(** the bytes under the cursor *)
+Lemma bits_at_bytes s k n : live s -> n = 8 * Z.of_nat k -> pos s + n <= size s ->
+  exists l, unpack_bytes k (bits_at s n) = l /\ length l = k /\ bytes_ok l /\
+            bits_value (bits_at s n) = be_value l.
+Proof.
+  intros L -> H.
+  destruct (unpack_bytes_props k (bits_at s (8 * Z.of_nat k))) as (P1 & P2 & P3).
+  { rewrite bits_at_length by (auto; lia). lia. }
+  eexists; split; [reflexivity|]. split; [exact P1|]. split; [exact P2|].
+  rewrite <- P3 at 1. unfold bits_value, be_value. now apply bits_value_acc_bytes.
+Qed.
+
+Ltac nthz_concrete :=
+  repeat match goal with
+  | |- context [nthz (?x :: ?l) ?i] =>
+      let v := eval cbv in (Z.to_nat i) in change (nthz (x :: l) i) with (nth v (x :: l) 0)
+  end; cbn [nth].
+
+Ltac lor_add_step k :=
+  let p := eval compute in (2 ^ k) in
+  match goal with
+  | |- context [Z.lor ?hi ?lo] => rewrite (lor_add k hi lo) by (change (2 ^ k) with p; lia)
+  end.
+
+Lemma read_uint8_reader :
+  reader_ok read_uint8 8 (fun s => bits_value (bits_at s 8)) (fun _ => True).
+Proof.
+  unfold read_uint8.
+  eapply reader_ok_val.
+  - eapply (reader_ok_bind (fun s => read_bytes s [0] 1) (8 * 1) _ _
+             (fun s1 d => let+ a := rd d 0 in COk (s1, a)) (fun d => nthz d 0) (fun _ => True)).
+    + apply read_bytes_reader; unfold len; cbn [length]; lia.
+    + intros s1 d Hd. cbn [length] in Hd. rewrite rd_ok by (unfold len; lia). reflexivity.
+    + auto.
+  - intros s L H. cbv beta.
+    change (Z.to_nat 1) with 1%nat. change (8 * 1) with 8.
+    destruct (bits_at_bytes s 1 8 L) as (l & -> & Ll & Bl & ->); [reflexivity|lia|].
+    destruct l as [|a [|? ?]]; try discriminate.
+    unfold be_value; cbn [be_value_acc app]. rewrite nthz_cons_0. lia.
+Qed.
+
+Lemma read_uint16_reader junk : junk_ok junk ->
+  reader_ok (fun s => read_uint16 s junk) 16 (fun s => bits_value (bits_at s 16)) (fun _ => True).
+Proof.
+  intros J. unfold read_uint16.
+  eapply reader_ok_val.
+  - eapply (reader_ok_bind (fun s => read_bytes s (firstn 2 junk) 2) (8 * 2) _ _
+             (fun s1 d => let+ a := rd d 0 in let+ b := rd d 1 in
+                          COk (s1, u16 (Z.lor (u16 (Z.shiftl a 8)) b)))
+             (fun d => u16 (Z.lor (u16 (Z.shiftl (nthz d 0) 8)) (nthz d 1))) (fun _ => True)).
+    + apply read_bytes_reader; unfold len; rewrite ?junk_firstn by (auto; lia); lia.
+    + intros s1 d Hd. rewrite junk_firstn in Hd by (auto; lia).
+      rewrite !rd_ok by (unfold len; lia). reflexivity.
+    + auto.
+  - intros s L H. cbv beta.
+    change (Z.to_nat 2) with 2%nat. change (8 * 2) with 16.
+    destruct (bits_at_bytes s 2 16 L) as (l & -> & Ll & Bl & ->); [reflexivity|lia|].
+    destruct l as [|a [|b [|? ?]]]; try discriminate.
+    inversion Bl as [|? ? Ha Bl1]; subst. inversion Bl1 as [|? ? Hb Bl2]; subst.
+    unfold is_byte in *.
+    unfold be_value; cbn [be_value_acc app].
+    nthz_concrete.
+    rewrite Z.shiftl_mul_pow2 by lia. change (2 ^ 8) with 256.
+    unfold u16. rewrite (Z.mod_small (a * 256)) by lia.
+    lor_add_step 8. rewrite Z.mod_small by lia. lia.
+Qed.
+
+Lemma read_uint32_reader junk : junk_ok junk ->
+  reader_ok (fun s => read_uint32 s junk) 32 (fun s => bits_value (bits_at s 32)) (fun _ => True).
+Proof.
+  intros J. unfold read_uint32.
+  eapply reader_ok_val.
+  - eapply (reader_ok_bind (fun s => read_bytes s (firstn 4 junk) 4) (8 * 4) _ _
+             (fun s1 d => let+ a := rd d 0 in let+ b := rd d 1 in let+ c := rd d 2 in let+ e := rd d 3 in
+                COk (s1, Z.lor (Z.lor (Z.lor (u32 (Z.shiftl a 24)) (u32 (Z.shiftl b 16)))
+                                      (u32 (Z.shiftl c 8))) e))
+             (fun d => Z.lor (Z.lor (Z.lor (u32 (Z.shiftl (nthz d 0) 24)) (u32 (Z.shiftl (nthz d 1) 16)))
+                                      (u32 (Z.shiftl (nthz d 2) 8))) (nthz d 3)) (fun _ => True)).
+    + apply read_bytes_reader; unfold len; rewrite ?junk_firstn by (auto; lia); lia.
+    + intros s1 d Hd. rewrite junk_firstn in Hd by (auto; lia).
+      rewrite !rd_ok by (unfold len; lia). reflexivity.
+    + auto.
+  - intros s L H. cbv beta.
+    change (Z.to_nat 4) with 4%nat. change (8 * 4) with 32.
+    destruct (bits_at_bytes s 4 32 L) as (l & -> & Ll & Bl & ->); [reflexivity|lia|].
+    destruct l as [|a [|b [|c [|e [|? ?]]]]]; try discriminate.
+    inversion Bl as [|? ? Ha Bl1]; subst. inversion Bl1 as [|? ? Hb Bl2]; subst.
+    inversion Bl2 as [|? ? Hc Bl3]; subst. inversion Bl3 as [|? ? He Bl4]; subst.
+    unfold is_byte in *.
+    unfold be_value; cbn [be_value_acc app].
+    nthz_concrete.
+    rewrite !Z.shiftl_mul_pow2 by lia.
+    change (2 ^ 24) with 16777216. change (2 ^ 16) with 65536. change (2 ^ 8) with 256.
+    unfold u32. rewrite !Z.mod_small by lia.
+    lor_add_step 24. lor_add_step 16. lor_add_step 8. lia.
+Qed.
+
+Lemma read_uint64_reader junk : junk_ok junk ->
+  reader_ok (fun s => read_uint64 s junk) 64 (fun s => bits_value (bits_at s 64)) (fun _ => True).
+Proof.
+  intros J. unfold read_uint64.
+  eapply reader_ok_val.
+  - eapply (reader_ok_bind (fun s => read_bytes s (firstn 8 junk) 8) (8 * 8) _ _
+             (fun s1 d =>
+                let+ b0 := rd d 0 in let+ b1 := rd d 1 in let+ b2 := rd d 2 in let+ b3 := rd d 3 in
+                let+ b4 := rd d 4 in let+ b5 := rd d 5 in let+ b6 := rd d 6 in let+ b7 := rd d 7 in
+                COk (s1, Z.lor (Z.lor (Z.lor (Z.lor (Z.lor (Z.lor (Z.lor
+                  (u64 (Z.shiftl b0 56)) (u64 (Z.shiftl b1 48))) (u64 (Z.shiftl b2 40)))
+                  (u64 (Z.shiftl b3 32))) (u64 (Z.shiftl b4 24))) (u64 (Z.shiftl b5 16)))
+                  (u64 (Z.shiftl b6 8))) b7))
+             (fun d => Z.lor (Z.lor (Z.lor (Z.lor (Z.lor (Z.lor (Z.lor
+                  (u64 (Z.shiftl (nthz d 0) 56)) (u64 (Z.shiftl (nthz d 1) 48))) (u64 (Z.shiftl (nthz d 2) 40)))
+                  (u64 (Z.shiftl (nthz d 3) 32))) (u64 (Z.shiftl (nthz d 4) 24))) (u64 (Z.shiftl (nthz d 5) 16)))
+                  (u64 (Z.shiftl (nthz d 6) 8))) (nthz d 7)) (fun _ => True)).
+    + apply read_bytes_reader; unfold len; rewrite ?junk_firstn by (auto; lia); lia.
+    + intros s1 d Hd. rewrite junk_firstn in Hd by (auto; lia).
+      rewrite !rd_ok by (unfold len; lia). reflexivity.
+    + auto.
+  - intros s L H. cbv beta.
+    change (Z.to_nat 8) with 8%nat. change (8 * 8) with 64.
+    destruct (bits_at_bytes s 8 64 L) as (l & -> & Ll & Bl & ->); [reflexivity|lia|].
+    destruct l as [|b0 [|b1 [|b2 [|b3 [|b4 [|b5 [|b6 [|b7 [|? ?]]]]]]]]]; try discriminate.
+    inversion Bl as [|? ? H0 Bl0]; subst. inversion Bl0 as [|? ? H1 Bl1]; subst.
+    inversion Bl1 as [|? ? H2 Bl2]; subst. inversion Bl2 as [|? ? H3 Bl3]; subst.
+    inversion Bl3 as [|? ? H4 Bl4]; subst. inversion Bl4 as [|? ? H5 Bl5]; subst.
+    inversion Bl5 as [|? ? H6 Bl6]; subst. inversion Bl6 as [|? ? H7 Bl7]; subst.
+    unfold is_byte in *.
+    unfold be_value; cbn [be_value_acc app].
+    nthz_concrete.
+    rewrite !Z.shiftl_mul_pow2 by lia.
+    change (2 ^ 56) with 72057594037927936. change (2 ^ 48) with 281474976710656.
+    change (2 ^ 40) with 1099511627776. change (2 ^ 32) with 4294967296.
+    change (2 ^ 24) with 16777216. change (2 ^ 16) with 65536. change (2 ^ 8) with 256.
+    unfold u64. rewrite !Z.mod_small by lia.
+    lor_add_step 56. lor_add_step 48. lor_add_step 40. lor_add_step 32.
+    lor_add_step 24. lor_add_step 16. lor_add_step 8. lia.
+Qed.
+
+Lemma bits_value_at_bound s n : live s -> 0 <= n -> pos s + n <= size s ->
+  0 <= bits_value (bits_at s n) < 2 ^ n.
+Proof.
+  intros L Hn H. pose proof (bits_value_bound (bits_at s n)) as B.
+  unfold len in B. rewrite bits_at_length in B by auto. now rewrite Z2Nat.id in B by lia.
+Qed.
+
+Lemma read_int8_reader :
+  reader_ok read_int8 8 (fun s => bits_value (bits_at s 8) - 128) (fun _ => True).
+Proof.
+  unfold read_int8. eapply reader_ok_val.
+  - eapply (reader_ok_bind read_uint8 8 _ _ (fun s1 u => COk (s1, s8 (s8 u - 128)))
+              (fun u => s8 (s8 u - 128)) (fun _ => True)); [apply read_uint8_reader|reflexivity|auto].
+  - intros s L H. cbv beta. pose proof (bits_value_at_bound s 8 L ltac:(lia) H) as B.
+    change (2 ^ 8) with 256 in B. unfold s8. lia.
+Qed.
+
+Lemma read_int16_reader junk : junk_ok junk ->
+  reader_ok (fun s => read_int16 s junk) 16 (fun s => bits_value (bits_at s 16) - 32768) (fun _ => True).
+Proof.
+  intros J. unfold read_int16. eapply reader_ok_val.
+  - eapply (reader_ok_bind (fun s => read_uint16 s junk) 16 _ _ (fun s1 u => COk (s1, s16 (s16 u - 32768)))
+              (fun u => s16 (s16 u - 32768)) (fun _ => True)); [now apply read_uint16_reader|reflexivity|auto].
+  - intros s L H. cbv beta. pose proof (bits_value_at_bound s 16 L ltac:(lia) H) as B.
+    change (2 ^ 16) with 65536 in B. unfold s16. lia.
+Qed.
+
+Lemma read_int32_reader junk : junk_ok junk ->
+  reader_ok (fun s => read_int32 s junk) 32 (fun s => bits_value (bits_at s 32) - 2147483648) (fun _ => True).
+Proof.
+  intros J. unfold read_int32. eapply reader_ok_val.
+  - eapply (reader_ok_bind (fun s => read_uint32 s junk) 32 _ _
+              (fun s1 u => COk (s1, s32 (s32 u - 2147483648)))
+              (fun u => s32 (s32 u - 2147483648)) (fun _ => True)); [now apply read_uint32_reader|reflexivity|auto].
+  - intros s L H. cbv beta. pose proof (bits_value_at_bound s 32 L ltac:(lia) H) as B.
+    change (2 ^ 32) with 4294967296 in B. unfold s32. lia.
+Qed.
+
+Lemma read_int64_reader junk : junk_ok junk ->
+  reader_ok (fun s => read_int64 s junk) 64
+    (fun s => bits_value (bits_at s 64) - 9223372036854775808) (fun _ => True).
+Proof.
+  intros J. unfold read_int64. eapply reader_ok_val.
+  - eapply (reader_ok_bind (fun s => read_uint64 s junk) 64 _ _
+              (fun s1 u => COk (s1, s64 (u64 (u - 9223372036854775808))))
+              (fun u => s64 (u64 (u - 9223372036854775808))) (fun _ => True));
+      [now apply read_uint64_reader|reflexivity|auto].
+  - intros s L H. cbv beta. pose proof (bits_value_at_bound s 64 L ltac:(lia) H) as B.
+    change (2 ^ 64) with 18446744073709551616 in B. unfold s64, u64. lia.
+Qed.
+
+(** ** every decoder call *)
+
+Definition dop_not_abort (o : dop) : Prop := match o with DAbort _ => False | _ => True end.
+Definition dop_res_ok (o : dop) (v : list Z) : Prop :=
+  match o with DBytes cap _ => len v = cap | _ => True end.
+
+Lemma skipn_repeat {A} (x : A) n m : skipn n (repeat x m) = repeat x (m - n).
+Proof.
+  revert m; induction n; intros m; [now rewrite Nat.sub_0_r|].
+  destruct m; cbn [repeat skipn Nat.sub]; auto.
+Qed.
+
+Lemma reader_ok_wrap {A} (R : cur -> cres (cur * A)) bits val (f : A -> list Z) (Q' : list Z -> Prop) :
+  reader_ok R bits val (fun _ => True) -> (forall a, Q' (f a)) ->
+  reader_ok (fun s => let+ (s', v) := R s in COk (s', f v)) bits (fun s => f (val s)) Q'.
+Proof.
+  intros H HQ.
+  apply (reader_ok_bind R bits val (fun _ => True) (fun s' v => COk (s', f v)) f Q'); auto.
+Qed.
+
+Lemma dop_reader junk o : junk_ok junk -> dop_ok o -> dop_not_abort o ->
+  reader_ok (fun s => run_dop junk s o) (dop_bits o) (fun s => dop_spec s o) (dop_res_ok o).
+Proof.
+  intros J Ok NA.
+  destruct o; cbn [dop_bits dop_ok dop_not_abort] in *; try contradiction;
+    unfold run_dop, dop_spec, dop_res_ok.
+  - (* DBit *)
+    eapply reader_ok_val; [eapply (reader_ok_wrap read_bit 1 _ (fun v => [v])); [apply read_bit_reader|auto]|].
+    intros s L H. cbv beta. pose proof L as (L1 & L2 & _).
+    rewrite bits_at_bitsf by lia. change (Z.to_nat 1) with 1%nat. cbn [bitsf].
+    unfold bits_value; cbn [bits_value_acc]. now destruct (getbit (buf s) (pos s)).
+  - (* DBool *)
+    unfold read_bool.
+    eapply reader_ok_val.
+    + eapply (reader_ok_wrap (fun s => let+ (s1, b) := read_bit s in COk (s1, negb (b =? 0))) 1 _
+               (fun v : bool => [if v then 1 else 0])); [|auto].
+      eapply (reader_ok_bind read_bit 1 _ _ (fun s1 b => COk (s1, negb (b =? 0)))
+               (fun b => negb (b =? 0)) (fun _ => True)); [apply read_bit_reader|reflexivity|auto].
+    + intros s L H. cbv beta. pose proof L as (L1 & L2 & _).
+      rewrite bits_at_bitsf by lia. change (Z.to_nat 1) with 1%nat. cbn [bitsf].
+      unfold bits_value; cbn [bits_value_acc]. now destruct (getbit (buf s) (pos s)).
+  - (* DBytes *)
+    destruct Ok as (H1 & H2).
+    assert (LZ : length (zeros cap) = Z.to_nat cap) by (unfold zeros; apply repeat_length).
+    eapply reader_ok_val.
+    + pose proof (read_bytes_reader (zeros cap) n) as R.
+      destruct R as (R1 & R2 & R3); [unfold len; lia|lia|].
+      split; [|split].
+      * intros s L. destruct (R1 s L) as (a & E & Q). exists a. split; [exact E|].
+        unfold len. rewrite Q, LZ. lia.
+      * intros s L H. destruct (R2 s L H) as (a & E & Q). exists a. split; [exact E|].
+        unfold len. rewrite Q, LZ. lia.
+      * intros s L H. destruct (R3 s L H) as (E & Q). split; [exact E|].
+        unfold len. rewrite Q, LZ. lia.
+    + intros s L H. cbv beta. f_equal. unfold zeros. rewrite skipn_repeat. f_equal. lia.
+  - (* DNnbi *)
+    eapply (reader_ok_wrap (fun s => read_nnbi s n) n _ (fun v => [v])); [now apply read_nnbi_reader|auto].
+  - eapply (reader_ok_wrap read_uint8 8 _ (fun v => [v])); [apply read_uint8_reader|auto].
+  - eapply (reader_ok_wrap (fun s => read_uint16 s junk) 16 _ (fun v => [v])); [now apply read_uint16_reader|auto].
+  - eapply (reader_ok_wrap (fun s => read_uint32 s junk) 32 _ (fun v => [v])); [now apply read_uint32_reader|auto].
+  - eapply (reader_ok_wrap (fun s => read_uint64 s junk) 64 _ (fun v => [v])); [now apply read_uint64_reader|auto].
+  - eapply (reader_ok_wrap read_int8 8 _ (fun v => [v])); [apply read_int8_reader|auto].
+  - eapply (reader_ok_wrap (fun s => read_int16 s junk) 16 _ (fun v => [v])); [now apply read_int16_reader|auto].
+  - eapply (reader_ok_wrap (fun s => read_int32 s junk) 32 _ (fun v => [v])); [now apply read_int32_reader|auto].
+  - eapply (reader_ok_wrap (fun s => read_int64 s junk) 64 _ (fun v => [v])); [now apply read_int64_reader|auto].
+Qed.
+
+(* ------------------------------------------------------------------ *)
+(** * Group 2: in bounds, latch (decoder) *)
+
+Lemma dop_abort_or o : (exists e, o = DAbort e) \/ dop_not_abort o.
+Proof. destruct o; cbn; eauto. Qed.
+
+Theorem dop_in_bounds : forall junk s o, junk_ok junk -> wf s -> dop_ok o ->
+  exists s' v, run_dop junk s o = COk (s', v) /\ wf s' /\ buf s' = buf s /\ (latched s -> s' = s) /\
+               match o with DBytes cap _ => len v = cap | _ => True end.
+Proof.
+  intros junk s o J W Ok.
+  destruct (dop_abort_or o) as [(e & ->)|NA].
+  - cbn [run_dop dop_ok] in *. exists (abort s e), []. split; [reflexivity|].
+    destruct W as [L|L].
+    + split; [right; now apply abort_live_latched|]. rewrite abort_live by auto.
+      split; [reflexivity|]. split; [|exact I].
+      destruct L as (_ & L2 & _). intros [H1 H2]. lia.
+    + rewrite abort_latched by auto. split; [now right|]. split; [reflexivity|]. split; auto.
+  - destruct (dop_reader junk o J Ok NA) as (R1 & R2 & R3).
+    destruct W as [L|L].
+    + assert (NL : latched s -> False) by (destruct L as (_ & L2 & _); intros [H1 H2]; lia).
+      destruct (Z.le_gt_cases (pos s + dop_bits o) (size s)) as [R|R].
+      * destruct (R3 s L R) as (E & Q). eexists _, _. split; [exact E|].
+        split; [left; apply live_adv; auto|].
+        { destruct o; cbn [dop_bits dop_ok] in *; lia. }
+        split; [reflexivity|]. split; [intros H; destruct (NL H)|exact Q].
+      * destruct (R2 s L R) as (a & E & Q). eexists _, _. split; [exact E|].
+        split; [right; apply abort_live_latched; auto; unfold EOUTOFDATA; lia|].
+        rewrite abort_live by auto. split; [reflexivity|]. split; [intros H; destruct (NL H)|exact Q].
+    + destruct (R1 s L) as (a & E & Q). exists s, a. split; [exact E|]. split; [now right|].
+      split; [reflexivity|]. split; auto.
+Qed.
+
+Theorem helpers_in_bounds_dec : forall os junk s, junk_ok junk -> wf s -> Forall dop_ok os ->
+  exists s' vs, run_dops junk s os = COk (s', vs) /\ wf s' /\ buf s' = buf s /\ (latched s -> s' = s) /\
+    Forall2 (fun o v => match o with DBytes cap _ => len v = cap | _ => True end) os vs.
+Proof.
+  induction os as [|o os IH]; intros junk s J W F.
+  - exists s, []. cbn [run_dops]. repeat split; auto.
+  - inversion F as [|? ? Ho Hos]; subst. cbn [run_dops].
+    destruct (dop_in_bounds junk s o J W Ho) as (s1 & v & -> & W1 & B1 & K1 & Q1). cbn [cbind].
+    destruct (IH junk s1 J W1 Hos) as (s2 & vs & -> & W2 & B2 & K2 & Q2). cbn [cbind].
+    exists s2, (v :: vs). split; [reflexivity|]. split; [exact W2|]. split; [congruence|].
+    split; [|constructor; auto].
+    intros H. specialize (K1 H). subst s1. now apply K2.
+Qed.
+
+Theorem dec_overflow_latches : forall junk s o, junk_ok junk -> live s -> dop_ok o ->
+  (match o with DAbort _ => False | _ => True end) -> size s < pos s + dop_bits o ->
+  exists s' v, run_dop junk s o = COk (s', v) /\ latched s' /\ get_result s' = - EOUTOFDATA.
+Proof.
+  intros junk s o J L Ok NA R.
+  destruct (dop_reader junk o J Ok NA) as (_ & R2 & _).
+  destruct (R2 s L R) as (a & E & _). eexists _, _. split; [exact E|].
+  assert (LA : latched (abort s EOUTOFDATA)) by (apply abort_live_latched; auto; unfold EOUTOFDATA; lia).
+  split; [exact LA|]. rewrite get_result_latched by exact LA. now rewrite abort_live.
+Qed.
+
+Lemma run_dops_app junk s os1 os2 :
+  run_dops junk s (os1 ++ os2) =
+  let+ (s1, vs1) := run_dops junk s os1 in
+  let+ (s2, vs2) := run_dops junk s1 os2 in COk (s2, vs1 ++ vs2).
+Proof.
+  revert s; induction os1 as [|o os1 IH]; intros s.
+  - cbn [app run_dops cbind]. destruct (run_dops junk s os2) as [[s2 vs2]| |]; reflexivity.
+  - cbn [app run_dops]. destruct (run_dop junk s o) as [[s1 v]| |]; cbn [cbind]; auto.
+    rewrite IH. destruct (run_dops junk s1 os1) as [[s2 vs]| |]; cbn [cbind]; auto.
+    destruct (run_dops junk s2 os2) as [[s3 vs3]| |]; reflexivity.
+Qed.
+
+Lemma Forall2_len {A B} (P : A -> B -> Prop) l1 l2 : Forall2 P l1 l2 -> length l1 = length l2.
+Proof. induction 1; cbn [length]; auto. Qed.
+
+Theorem dec_latch_sticky : forall junk os1 os2 s s1 vs1, junk_ok junk -> wf s ->
+  Forall dop_ok (os1 ++ os2) -> run_dops junk s os1 = COk (s1, vs1) -> latched s1 ->
+  exists vs2, run_dops junk s (os1 ++ os2) = COk (s1, vs1 ++ vs2) /\ length vs2 = length os2.
+Proof.
+  intros junk os1 os2 s s1 vs1 J W F E L. rewrite run_dops_app, E. cbn [cbind].
+  apply Forall_app in F. destruct F as [_ F2].
+  destruct (helpers_in_bounds_dec os2 junk s1 J (or_intror L) F2) as (s2 & vs2 & E2 & _ & _ & K & Q).
+  rewrite E2. cbn [cbind]. exists vs2. rewrite (K L). split; [reflexivity|].
+  symmetry. eapply Forall2_len; eauto.
+Qed.
+
+(* ------------------------------------------------------------------ *)
+(** * Group 3 (decoder): functional correctness *)
+
+Theorem dop_matches_spec : forall junk s o, junk_ok junk -> live s -> dop_ok o ->
+  (match o with DAbort _ => False | _ => True end) -> pos s + dop_bits o <= size s ->
+  run_dop junk s o = COk (mkCur (buf s) (size s) (pos s + dop_bits o), dop_spec s o).
+Proof.
+  intros junk s o J L Ok NA R.
+  destruct (dop_reader junk o J Ok NA) as (_ & _ & R3). now destruct (R3 s L R).
+Qed.
+(* ------------------------------------------------------------------ *)
+(** * pack *)
+
+Lemma pack_fuel_nil f : pack_fuel f [] = [].
+Proof. now destruct f. Qed.
+
+Lemma pack_fuel_S f bs : bs <> [] ->
+  pack_fuel (S f) bs = bits_value (firstn 8 (bs ++ repeat false 7)) :: pack_fuel f (skipn 8 bs).
+Proof. intros H. destruct bs; [congruence|reflexivity]. Qed.
+
+Lemma pack_fuel_enough : forall f1 f2 bs, (length bs <= f1)%nat -> (length bs <= f2)%nat ->
+  pack_fuel f1 bs = pack_fuel f2 bs.
+Proof.
+  induction f1 as [|f1 IH]; intros f2 bs H1 H2.
+  - destruct bs; [|cbn [length] in H1; lia]. now rewrite !pack_fuel_nil.
+  - destruct bs as [|b bs]; [now rewrite !pack_fuel_nil|].
+    destruct f2 as [|f2]; [cbn [length] in H2; lia|].
+    rewrite !pack_fuel_S by congruence. f_equal.
+    apply IH; rewrite skipn_length; cbn [length] in *; lia.
+Qed.
+
+Lemma firstn_pad (bs : list bool) (p : nat) : length bs = 8%nat -> (1 <= p <= 8)%nat ->
+  (forall i, (p <= i < 8)%nat -> nth i bs false = false) ->
+  firstn 8 (firstn p bs ++ repeat false 7) = bs.
+Proof.
+  intros HL Hp H.
+  destruct bs as [|b0 [|b1 [|b2 [|b3 [|b4 [|b5 [|b6 [|b7 [|? ?]]]]]]]]]; try discriminate.
+  pose proof (H 0%nat) as H0. pose proof (H 1%nat) as H1. pose proof (H 2%nat) as H2.
+  pose proof (H 3%nat) as H3. pose proof (H 4%nat) as H4. pose proof (H 5%nat) as H5.
+  pose proof (H 6%nat) as H6. pose proof (H 7%nat) as H7. clear H HL.
+  cbn [nth] in H0, H1, H2, H3, H4, H5, H6, H7.
+  assert (K : forall q, (q < 8)%nat -> (p = S q) ->
+             firstn 8 (firstn (S q) [b0; b1; b2; b3; b4; b5; b6; b7] ++ repeat false 7) =
+             [b0; b1; b2; b3; b4; b5; b6; b7]).
+  { intros q Hq ->. clear Hp.
+    do 8 (destruct q as [|q]; [cbn [firstn app repeat];
+      try rewrite (H1 ltac:(split; unfold lt; repeat constructor));
+      try rewrite (H2 ltac:(split; unfold lt; repeat constructor));
+      try rewrite (H3 ltac:(split; unfold lt; repeat constructor));
+      try rewrite (H4 ltac:(split; unfold lt; repeat constructor));
+      try rewrite (H5 ltac:(split; unfold lt; repeat constructor));
+      try rewrite (H6 ltac:(split; unfold lt; repeat constructor));
+      try rewrite (H7 ltac:(split; unfold lt; repeat constructor)); reflexivity|]).
+    lia. }
+  destruct p as [|q]; [lia|]. apply (K q); [lia|reflexivity].
+Qed.
+
+Lemma nth_byte_bits x i : (i < 8)%nat -> nth i (byte_bits x) false = Z.testbit x (7 - Z.of_nat i).
+Proof.
+  intros H. rewrite byte_bits_bitsf, nth_bitsf by lia. f_equal.
+Qed.
+
+Lemma pack_prefix : forall b p, bytes_ok b -> 0 <= p <= 8 * len b ->
+  (forall i, p <= i < 8 * ((p + 7) / 8) -> getbit b i = false) ->
+  firstn (Z.to_nat ((p + 7) / 8)) b = pack (firstn (Z.to_nat p) (bytes_bits b)).
+Proof.
+  induction b as [|x r IH]; intros p B Hp C.
+  - change (len []) with 0 in Hp. replace p with 0 by lia. reflexivity.
+  - inversion B as [|? ? Hx Br]; subst.
+    assert (Lr : len (x :: r) = len r + 1) by (unfold len; cbn [length]; lia).
+    assert (L8 : length (byte_bits x) = 8%nat) by reflexivity.
+    destruct (Z.eq_dec p 0) as [->|P0]; [reflexivity|].
+    destruct (Z.ltb_spec p 8) as [P8|P8].
+    + replace (Z.to_nat ((p + 7) / 8)) with 1%nat by lia. cbn [firstn].
+      rewrite bytes_bits_cons, firstn_app_le by lia.
+      unfold pack. rewrite firstn_length, L8.
+      replace (Nat.min (Z.to_nat p) 8) with (S (Z.to_nat p - 1)) by lia.
+      rewrite pack_fuel_S.
+      2:{ intros E. apply (f_equal (@length bool)) in E. rewrite firstn_length, L8 in E.
+          cbn [length] in E. lia. }
+      rewrite skipn_all2 by (rewrite firstn_length; lia). rewrite pack_fuel_nil.
+      f_equal. rewrite firstn_pad; auto; try lia.
+      * unfold byte_bits. symmetry. apply bits_value_be_bits. exact Hx.
+      * intros i Hi. rewrite nth_byte_bits by lia.
+        rewrite <- (getbit_cons_lo x r) by lia. apply C. lia.
+    + replace (Z.to_nat ((p + 7) / 8)) with (S (Z.to_nat ((p - 8 + 7) / 8))) by lia.
+      cbn [firstn].
+      rewrite bytes_bits_cons, firstn_app_ge by lia. rewrite L8.
+      replace (Z.to_nat p - 8)%nat with (Z.to_nat (p - 8)) by lia.
+      unfold pack at 1. rewrite app_length, L8. cbn [Nat.add].
+      rewrite pack_fuel_S by (unfold byte_bits; cbn [be_bits app]; congruence).
+      rewrite <- app_assoc, firstn_app_le by lia. rewrite (@firstn_all2 _ 8 (byte_bits x)) by lia.
+      rewrite skipn_app, skipn_all2, L8 by lia. cbn [Nat.sub skipn app].
+      f_equal.
+      * unfold byte_bits. symmetry. apply bits_value_be_bits. exact Hx.
+      * rewrite IH; auto; try lia.
+        -- unfold pack. apply pack_fuel_enough; lia.
+        -- intros i Hi. rewrite <- (getbit_cons_hi x r) by lia. apply C. lia.
+Qed.
+
+Lemma pack_written s : live s -> clean s ->
+  firstn (Z.to_nat (get_result s)) (buf s) = pack (written s).
+Proof.
+  intros (L1 & L2 & L3 & L4) C. unfold get_result.
+  destruct (size s >=? 0) eqn:E; [|lia].
+  rewrite Z.quot_div_nonneg by lia. unfold written. apply pack_prefix; auto. lia.
+Qed.
+
+(* ------------------------------------------------------------------ *)
+(** * Group 3 (encoder): functional correctness *)
+
+Lemma eop_spec_len o : eop_ok o -> len (eop_spec o) = eop_bits o.
+Proof.
+  intros Ok. unfold len.
+  destruct o; cbn [eop_spec eop_bits eop_ok] in *; rewrite ?be_bits_length; try reflexivity.
+  - destruct Ok as (H1 & H2 & H3). rewrite bytes_bits_length, firstn_length. unfold len in *. lia.
+  - lia.
+Qed.
+
+Lemma eop_bits_nonneg o : eop_ok o -> 0 <= eop_bits o.
+Proof. intros Ok. destruct o; cbn [eop_bits eop_ok] in *; lia. Qed.
+
+Theorem eop_matches_spec : forall s o, live s -> clean s -> eop_ok o -> eop_is_abort o = false ->
+  pos s + eop_bits o <= size s ->
+  exists s', run_eop s o = COk s' /\ live s' /\ clean s' /\ size s' = size s /\
+             pos s' = pos s + eop_bits o /\ written s' = written s ++ eop_spec o.
+Proof.
+  intros s o L C Ok NA R.
+  destruct (eop_room s o L Ok NA R) as (s' & E & P1 & P2 & P3 & P4 & P5).
+  destruct (P5 C) as (C' & W). rewrite eop_spec_len in P4 by auto.
+  exists s'. split; [exact E|]. split; [exact P1|]. split; [exact C'|]. split; [exact P2|].
+  split; [exact P4|exact W].
+Qed.
+
+Theorem helpers_match_uper : forall os s, live s -> clean s -> Forall eop_ok os -> no_abort os ->
+  pos s + total_bits os <= size s ->
+  exists s', run_eops s os = COk s' /\ live s' /\ clean s' /\ pos s' = pos s + total_bits os /\
+             written s' = written s ++ flat_map eop_spec os /\
+             firstn (Z.to_nat (get_result s')) (buf s') = pack (written s').
+Proof.
+  assert (TB : forall os, Forall eop_ok os -> 0 <= total_bits os).
+  { induction 1 as [|o os Ho Hos IH]; cbn [total_bits fold_right]; [lia|].
+    pose proof (eop_bits_nonneg o Ho). fold (total_bits os). lia. }
+  assert (M : forall os s, live s -> clean s -> Forall eop_ok os -> no_abort os ->
+    pos s + total_bits os <= size s ->
+    exists s', run_eops s os = COk s' /\ live s' /\ clean s' /\ pos s' = pos s + total_bits os /\
+               written s' = written s ++ flat_map eop_spec os).
+  { induction os as [|o os IH]; intros s L C F NA R.
+    - exists s. cbn [run_eops total_bits fold_right flat_map]. rewrite app_nil_r.
+      split; [reflexivity|]. split; [exact L|]. split; [exact C|]. split; [lia|reflexivity].
+    - inversion F as [|? ? Ho Hos]; subst. inversion NA as [|? ? No Nos]; subst.
+      cbn [total_bits fold_right] in *. fold (total_bits os) in *.
+      pose proof (TB os Hos).
+      destruct (eop_matches_spec s o L C Ho No ltac:(lia)) as (s1 & E1 & L1 & C1 & S1 & P1 & W1).
+      destruct (IH s1 L1 C1 Hos Nos ltac:(lia)) as (s2 & E2 & L2 & C2 & P2 & W2).
+      exists s2. cbn [run_eops]. rewrite E1. cbn [cbind]. split; [exact E2|].
+      split; [exact L2|]. split; [exact C2|]. split; [lia|].
+      rewrite W2, W1. cbn [flat_map]. now rewrite app_assoc. }
+  intros os s L C F NA R.
+  destruct (M os s L C F NA R) as (s' & E & L' & C' & P' & W').
+  exists s'. split; [exact E|]. split; [exact L'|]. split; [exact C'|]. split; [exact P'|].
+  split; [exact W'|]. now apply pack_written.
+Qed.
+
+(* ------------------------------------------------------------------ *)
+(** * Group 4: round trips *)
+
+Lemma written_length s : live s -> length (written s) = Z.to_nat (pos s).
+Proof.
+  intros (L1 & L2 & _). rewrite written_bitsf by lia. apply bitsf_length.
+Qed.
+
+(** After an encoder call, the bits under the old cursor are the appended ones. *)
+Lemma roundtrip_bits s o s' : live s -> clean s -> eop_ok o -> eop_is_abort o = false ->
+  pos s + eop_bits o <= size s -> run_eop s o = COk s' ->
+  live (mkCur (buf s') (size s) (pos s)) /\
+  bits_at (mkCur (buf s') (size s) (pos s)) (eop_bits o) = eop_spec o.
+Proof.
+  intros L C Ok NA R E.
+  destruct (eop_matches_spec s o L C Ok NA R) as (s1 & E1 & L1 & C1 & S1 & P1 & W1).
+  rewrite E in E1. inversion E1; subst s1. clear E1.
+  pose proof (eop_bits_nonneg o Ok) as NB.
+  pose proof L as (A1 & A2 & A3 & A4). pose proof L1 as (B1 & B2 & B3 & B4).
+  split.
+  - unfold live. cbn [buf size pos]. repeat split; auto; lia.
+  - unfold bits_at. cbn [buf pos].
+    rewrite firstn_skipn_comm.
+    replace (Z.to_nat (pos s) + Z.to_nat (eop_bits o))%nat with (Z.to_nat (pos s')) by lia.
+    fold (written s'). rewrite W1.
+    rewrite <- (written_length s L). rewrite skipn_app, skipn_all, Nat.sub_diag. reflexivity.
+Qed.
+
+Theorem append_read_roundtrip : forall s v n s', live s -> clean s -> 0 <= n <= 64 -> 0 <= v < 2 ^ n ->
+  pos s + n <= size s -> append_nnbi s v n = COk s' ->
+  read_nnbi (mkCur (buf s') (size s) (pos s)) n = COk (mkCur (buf s') (size s) (pos s + n), v).
+Proof.
+  intros s v n s' L C Hn Hv R E.
+  destruct (roundtrip_bits s (ENnbi v n) s' L C Hn eq_refl R E) as (Lt & Bt).
+  cbn [eop_bits eop_spec] in Bt.
+  destruct (read_nnbi_reader n Hn) as (_ & _ & R3).
+  destruct (R3 _ Lt R) as (-> & _). cbn [buf size pos]. do 2 f_equal.
+  rewrite Bt. apply bits_value_be_bits. now rewrite Z2Nat.id by lia.
+Qed.
+
+Lemma bytes_ok_firstn n l : bytes_ok l -> bytes_ok (firstn n l).
+Proof.
+  unfold bytes_ok. intros H. revert n. induction H; intros [|n]; cbn [firstn]; constructor; auto.
+Qed.
+
+Theorem append_read_bytes_roundtrip : forall s src n s', live s -> clean s -> 0 <= n <= len src ->
+  bytes_ok src -> pos s + 8 * n <= size s -> append_bytes s src n = COk s' ->
+  read_bytes (mkCur (buf s') (size s) (pos s)) (zeros n) n =
+  COk (mkCur (buf s') (size s) (pos s + 8 * n), firstn (Z.to_nat n) src).
+Proof.
+  intros s src n s' L C Hn Bs R E.
+  pose proof (live_len s L) as HL. pose proof L as (A1 & A2 & _).
+  assert (Ok : eop_ok (EBytes src n)) by (cbn [eop_ok]; repeat split; auto; lia).
+  destruct (roundtrip_bits s (EBytes src n) s' L C Ok eq_refl R E) as (Lt & Bt).
+  cbn [eop_bits eop_spec] in Bt.
+  assert (LZ : length (zeros n) = Z.to_nat n) by (unfold zeros; apply repeat_length).
+  rewrite read_bytes_post; auto; cbn [buf size pos]; [|unfold len; lia].
+  do 2 f_equal. rewrite Bt.
+  unfold zeros. rewrite skipn_repeat, Nat.sub_diag. cbn [repeat]. rewrite app_nil_r.
+  assert (LF : length (firstn (Z.to_nat n) src) = Z.to_nat n)
+    by (rewrite firstn_length; unfold len in *; lia).
+  rewrite <- LF at 1. rewrite <- (app_nil_r (bytes_bits _)).
+  apply unpack_bytes_bits. now apply bytes_ok_firstn.
+Qed.
+
+(** the eight fixed-width pairs *)
+Inductive int_pair : eop -> dop -> Z -> Prop :=
+| IP_U8 v : 0 <= v < 256 -> int_pair (EU8 v) DU8 v
+| IP_U16 v : 0 <= v < 65536 -> int_pair (EU16 v) DU16 v
+| IP_U32 v : 0 <= v < 4294967296 -> int_pair (EU32 v) DU32 v
+| IP_U64 v : 0 <= v < 18446744073709551616 -> int_pair (EU64 v) DU64 v
+| IP_I8 v : -128 <= v < 128 -> int_pair (EI8 v) DI8 v
+| IP_I16 v : -32768 <= v < 32768 -> int_pair (EI16 v) DI16 v
+| IP_I32 v : -2147483648 <= v < 2147483648 -> int_pair (EI32 v) DI32 v
+| IP_I64 v : -9223372036854775808 <= v < 9223372036854775808 -> int_pair (EI64 v) DI64 v.
+
+Theorem append_read_int_roundtrip : forall junk s o d v s', junk_ok junk -> live s -> clean s ->
+  int_pair o d v -> pos s + eop_bits o <= size s -> run_eop s o = COk s' ->
+  run_dop junk (mkCur (buf s') (size s) (pos s)) d =
+  COk (mkCur (buf s') (size s) (pos s + eop_bits o), [v]).
+Proof.
+  intros junk s o d v s' J L C P R E.
+  assert (Ok : eop_ok o) by (destruct P; exact I).
+  assert (NA : eop_is_abort o = false) by (destruct P; reflexivity).
+  destruct (roundtrip_bits s o s' L C Ok NA R E) as (Lt & Bt).
+  assert (EB : dop_bits d = eop_bits o) by (destruct P; reflexivity).
+  rewrite dop_matches_spec; auto; cbn [buf size pos]; try rewrite EB; auto.
+  - do 2 f_equal.
+    destruct P; cbn [dop_spec eop_bits eop_spec] in *; rewrite Bt;
+      rewrite bits_value_be_bits; try reflexivity; try lia; f_equal; lia.
+  - destruct P; exact I.
+  - destruct P; exact I.
+Qed.
+
+(* ------------------------------------------------------------------ *)
+(** * The hypotheses are satisfiable: a live, clean cursor over 4 bytes *)
+
+Example helpers_example :
+  let s := mkCur [0; 0; 0; 0] 32 0 in
+  live s /\ clean s /\
+  run_eops s [EBit 1; ENnbi 5 3; EU8 171; EBool false] =
+    COk (mkCur [218; 176; 0; 0] 32 13).
+Proof.
+  cbv zeta. split; [|split].
+  - unfold live, len, bytes_ok, is_byte. cbn [buf size pos length]. repeat split; try lia.
+    repeat constructor; lia.
+  - intros i Hi. cbn [buf pos] in *. lia.
+  - vm_compute. reflexivity.
+Qed.
